@@ -121,6 +121,14 @@ fn classify_input(s: &str) -> Option<Model> {
   Some(Model { net: net.to_string(), tag: parse_tag_lower(tag)? })
 }
 
+/// The 32 bytes an alias id string spells: "0x" / "0X" + 64 hex digits in any case, nothing else.
+fn alias_tag(alias: &str) -> Option<[u8; 32]> {
+  if !alias.is_ascii() {
+    return None;
+  }
+  parse_tag_lower(&alias.to_ascii_lowercase())
+}
+
 fn hash_of<T: Hash>(t: &T) -> u64 {
   let mut h = DefaultHasher::new();
   t.hash(&mut h);
@@ -562,7 +570,18 @@ impl Ctx {
     self.rep.eval();
     self.rep.inc("netname_checks");
     let ok = valid_net(name);
-    match catch(|| NetworkName::try_from(name.to_string())) {
+    match catch(|| NetworkName::validate_network_name(name).is_ok()) {
+      Ok(v) if v == ok => {}
+      Ok(v) => self.rep.violation(
+        if v { "network-name-accepts-invalid:validate" } else { "network-name-rejects-valid:validate" },
+        &format!("NetworkName::validate_network_name({:?}) says {}; the rule is 1-6 of [a-z0-9]", name, v),
+        json!({"name":name}),
+      ),
+      Err(p) => self.panic_viol("network-name", &p, json!({"name":name})),
+    }
+    // the inherent constructor and the TryFrom<String> impl are the same route
+    let via_trait = rng.chance(1, 4);
+    match catch(|| if via_trait { <NetworkName as TryFrom<String>>::try_from(name.to_string()) } else { NetworkName::try_from(name.to_string()) }) {
       Err(p) => self.panic_viol("network-name", &p, json!({"name":name})),
       Ok(Ok(nn)) => {
         self.rep.inc("netname_accepted");
@@ -583,14 +602,18 @@ impl Ctx {
         // whatever name the library let through goes into the builders: the result must be a normal-form DID
         if ok {
           self.built_case(tag, name, &nn, rng);
-        } else {
-          match catch(|| IotaDID::new(tag, &nn)) {
-            Ok(v) => {
-              let input = format!("new(0x{}, {:?})", hex_lower(tag), name);
-              self.check_value("new", "parse", &input, &v, None);
-            }
-            Err(_) => self.rep.inc("new_with_invalid_name_panicked"),
+          // a valid name survives its own JSON form
+          match catch(|| serde_json::to_string(&nn).map(|j| (serde_json::from_str::<NetworkName>(&j).map(|b| b == nn && b.as_ref() == name), j))) {
+            Ok(Ok((Ok(true), j))) if j == serde_json::to_string(name).expect("json") => self.rep.inc("netname_serde_roundtrips"),
+            Ok(other) => self.rep.violation(
+              "network-name-serde-roundtrip-mismatch",
+              &format!("JSON round trip of NetworkName {:?} differs: {:?}", name, other.map(|(b, j)| (b.map_err(|e| e.to_string()), j)).map_err(|e| e.to_string())),
+              json!({"name":name}),
+            ),
+            Err(p) => self.panic_viol("network-name-serde", &p, json!({"name":name})),
           }
+        } else {
+          self.accepted_invalid_name_builders("try_from", name, &nn, tag);
         }
       }
       Ok(Err(_)) => {
